@@ -126,6 +126,20 @@ func (corruptScen) Gen(r *Rng, cfg GenConfig) any {
 		c.EnumTrunc = true
 		return c
 	}
+	if r.Chance(1, 40) {
+		// a line longer than common buffer sizes (64 KiB scanners, 4 KiB pages) somewhere before the damage
+		n := Pick(r, []int{4100, 65600, 70000, 140000})
+		long := strings.Repeat("x", n)
+		line := "# " + long + "\n"
+		if r.Chance(1, 2) {
+			line = "LONG := \"" + long + "\"\n"
+		}
+		pos := 0
+		if i := strings.Index(base, "\n"); i >= 0 && r.Chance(1, 2) {
+			pos = i + 1
+		}
+		c.Faults = append(c.Faults, SFault{Kind: "splice", Pos: pos, Data: []byte(line)})
+	}
 	nf := Pick(r, []int{1, 1, 1, 2, 3})
 	if r.Chance(1, 12) {
 		nf = 0 // the undamaged program
